@@ -32,6 +32,12 @@ CLAIMS = {
         "Trusted: the specification table frozen from the property text (DESIGN.md A.2); Python list.count/len/in; checks written outside the recognised predicate forms are reported UNDECIDED, not decided.",
         "DESIGN.md §4 C09",
     ),
+    "C12": (
+        "record/schema agreement: dict literals returned by reflection() compared with reflection.fcp parsed by the repository's own grammar (key sets, value-kind inference via types-lite, attribute provenance), typed method resolution, dispatcher coverage",
+        "Structural: every reflection() record has exactly the keys of the like-named struct of reflection.fcp with value kinds encodable as the declared FCP types; each key is fed from the like-named attribute and no serialised attribute is dropped; every method called while building a record resolves on the receiver's class; every concrete type class flattens its chain; every type constructor used by reflection.fcp is dispatched by the Python codec; the CLI encodes struct Fcp. Byte-level losslessness is C01/C02 applied to this schema.",
+        "Trusted: class-to-struct name map (frozen, by class name); annotation-driven types (Any-typed values are treated as not encodable as str/int).",
+        "DESIGN.md §4 C12",
+    ),
 }
 
 NOT_BUILT = "check not built yet in this session (see DESIGN.md §7 build order); not claimed until it exists"
